@@ -188,7 +188,9 @@ class HarnessProc:
         if not line:
             rc = self.p.wait()
             self.errf.seek(0)
-            err = self.errf.read().decode(errors="replace")[-3000:]
+            err = self.errf.read().decode(errors="replace")
+            if len(err) > 3000:
+                err = err[:800] + "\n...\n" + err[-2200:]
             self.p = None
             return {"died": rc, "stderr": err}
         return json.loads(line)
